@@ -356,7 +356,7 @@ Definition exec_action (a : action) (s : state) : state :=
   | AWrite i n =>
       match live_client i s with
       | Some c =>
-          if n <? 1 then log EvSkip s else
+          if n <? 0 then log EvSkip s else
           if c_back c =? 0 then
             let r := send_result n (next_send n s) in
             let s := drop_send s in
